@@ -819,6 +819,20 @@ func (e *Exec) localByName(s *State, fn *ssa.Function, name string) (SV, bool) {
 			}
 		}
 	}
+	if name == "rangeindex" && e.invHeader == nil {
+		// outside a loop invariant: the hidden index of the function's only live range loop
+		var only *ssa.Alloc
+		n := 0
+		for a := range s.vars {
+			if a.Comment == "rangeindex" && a.Parent() == fn {
+				only = a
+				n++
+			}
+		}
+		if n == 1 {
+			return SV{t: s.vars[only], typ: only.Type().(*types.Pointer).Elem()}, true
+		}
+	}
 	for a := range s.vars {
 		if a.Comment == name && a.Parent() == fn {
 			if best == nil || a.Pos() > best.Pos() {
